@@ -85,6 +85,15 @@ CHECKS = {
         note='Trusts the reference interpreter for non-limit failures; a >520-byte push inside the script text may be refused at load time (C01 allows that). '
              'Two genuine defects found here were repaired by fix: commits (see known_findings.json).',
         design='5/C10'),
+    'C11': dict(
+        technique='property-based testing (Hypothesis): differential against a reference interpreter with the mock rule, a directional oracle for listed keys, a metamorphic non-interference relation, and the real list parser',
+        text='Pair lists (1-6 pairs of arbitrary byte strings, keys shared between pairs) x scripts whose checks use listed pairs, unlisted pairs and mixtures in CHECKSIG, CHECKSIGVERIFY, '
+             'CHECKMULTISIG(VERIFY) and CHECKSIGADD x {BASE, WITNESS_V0, TAPSCRIPT} x encoding flags x with/without a transaction: (A) per-step equality with the reference in which a listed pair succeeds '
+             'before any other rule; (B) a different signature for a listed key must not be accepted; (C) scripts without listed keys run identically with and without the option and equal the reference; '
+             '(D) the real --pretend-valid parser accepts hex / string / inline-expression lists and rejects malformed ones with exit 1.',
+        note='Mocked signatures are supplied on the stack; the tapscript weight is not compared for mocked checks; inside CHECKMULTISIG a listed key with another signature only needs to be "not accepted". '
+             'Known finding C11-shared-signature (one signature listed for two keys) is probed once per run.',
+        design='5/C11'),
     'C13': dict(
         technique='round-trip and differential property-based testing (Hypothesis) against an independent transaction codec, with exhaustive truncation of each generated encoding',
         text='Transactions built by the reference encoder (0..253 inputs/outputs, script lengths across 252/253/65535/65536, witness present/absent/mixed, empty witness items, extreme '
